@@ -36,6 +36,7 @@ class Net(object):
         self.select_waiters = []
         self.refuse = set()  # addresses that refuse connections (fault injection)
         self.on_connect = None  # hook(conn) for fault injection
+        self.connect_hook = None  # hook(key) -> True to refuse this connection attempt
 
     def fd(self, sock):
         self.next_fd += 1
@@ -199,8 +200,9 @@ class SimSocket(object):
         s.yield_point("sock.connect")
         key = self._key(addr)
         lst = n.listeners.get(key)
-        if key in n.refuse:
+        if key in n.refuse or (n.connect_hook is not None and lst is not None and n.connect_hook(key)):
             lst = None
+            s.fault("connection_refused")
         if lst is None or lst["sock"]._closed:
             s.emit("net.refused", str(key))
             if self.family == _real.AF_UNIX and key not in n.listeners:
